@@ -749,11 +749,21 @@ class Processor:
            document
         """
         # pylint: disable=locally-disabled,too-many-nested-blocks
+        deleted_refs: List[Any] = []
         for delete_nc in reversed(delete_nodes):
             node = delete_nc.node
             parent = delete_nc.parent
             parentref = delete_nc.parentref
             ancestry = delete_nc.ancestry
+
+            # A node matched more than once must still be deleted only once
+            is_wrapper = isinstance(node, NodeCoords) or (
+                isinstance(node, list) and len(node) > 0
+                and isinstance(node[0], NodeCoords))
+            if not is_wrapper and parent is not None:
+                if (id(parent), parentref) in deleted_refs:
+                    continue
+                deleted_refs.append((id(parent), parentref))
             self.logger.debug(
                 "Deleting node:",
                 prefix="yaml_set::delete_nodes:  ",
